@@ -27,6 +27,7 @@ type DdnParams struct {
 	Seed     int64  `json:"seed"`
 	Reports  int    `json:"reports"`
 	DdnMs    int    `json:"ddnMs"` // 0 = the real 20 s
+	Datapath string `json:"datapath"` // bess (default) | up4: reports are digests of the harness' P4Runtime switch
 }
 
 func e2eDdnWorker(args []string) error {
@@ -44,6 +45,11 @@ func e2eDdnWorker(args []string) error {
 	}()
 
 	cfg := agent.Cfg{N4Addr: p.N4Addr, Datapath: "bess", LogLevel: "warn", ReadTimeout: 120, RespTimeout: "2s", MaxReqRetries: 5, NotifyBess: true}
+	if p.Datapath == "up4" {
+		cfg = up4Cfg(rng, p.N4Addr)
+		cfg.UEIPAlloc = false
+	}
+
 	if p.DdnMs > 0 {
 		cfg.Env = []string{"VERIF_DDN_MS=" + itoa(p.DdnMs)}
 	}
@@ -70,6 +76,7 @@ func e2eDdnWorker(args []string) error {
 
 	cp := uint64(rng.Int63())
 	ue := uint32(0x0AD00000 + rng.Intn(1<<12)<<4)
+	n3 := w.AccessIP
 
 	type sess struct {
 		up     uint64
@@ -83,6 +90,10 @@ func e2eDdnWorker(args []string) error {
 		ue++
 
 		r := simpleSession(cp, ue, 1)
+		if p.Datapath == "up4" { // the UP4 plug-in keys uplink PDRs by the TEID the control plane names
+			r.CPDR[0].FTEID, r.CPDR[0].TunIP, r.CPDR[0].TEID = "explicit", n3, uint32(cp&0xFFFFFF)|1
+		}
+
 		if notify {
 			r.CFAR[1].Action = []uint8{0x0c, 0x08}[rng.Intn(2)] // BUFF|NOCP or NOCP
 		} else {
@@ -92,6 +103,7 @@ func e2eDdnWorker(args []string) error {
 		ds := w.Estab("p1", r)
 		if len(ds) >= 1 && ds[0].Cause == 1 && ds[0].HasFSEID {
 			ss = append(ss, sess{ds[0].UPSeid, notify})
+			w.UeBySeid[ds[0].UPSeid] = ue
 		}
 	}
 
@@ -125,6 +137,7 @@ func e2eDdnWorker(args []string) error {
 			// a session ends and another one starts
 			j := rng.Intn(len(ss))
 			w.Del("p1", &e2e.SessReq{Hdr: ss[j].up})
+			delete(w.UeBySeid, ss[j].up)
 			ss = append(ss[:j], ss[j+1:]...)
 			mk(rng.Intn(3) > 0)
 		}
@@ -154,7 +167,7 @@ func itoa(n int) string {
 
 // C13: downlink data notifications reach the control plane once per interval.
 func C13(c *core.Ctx) {
-	c.SetCov("rule", "datapath reports written to the BESS notify socket for notifying, non-notifying, deleted and unknown sessions of one association, with gaps clearly inside (<= 0.5 x) or "+
+	c.SetCov("rule", "datapath reports - F-SEIDs written to the BESS notify socket, and on every third shard digests sent by the harness' P4Runtime switch - for notifying, non-notifying, deleted and unknown sessions of one association, with gaps clearly inside (<= 0.5 x) or "+
 		"clearly outside (>= 1.5 x) the notification interval (200 ms through the guarded hook; one thorough shard uses the real 20 s); every Session Report Request the peer receives is judged; "+
 		"model: all report/tick sequences of Notifier.tla for 3 sessions, interval 3, 8 ticks; evaluations = script steps")
 
@@ -178,7 +191,12 @@ func C13(c *core.Ctx) {
 			ddn = 0 // the real 20 s interval: only "first report" and "inside" situations occur
 		}
 
-		return "e2e-ddn", DdnParams{Dir: dir, Trace: trace, AgentBin: filepath.Join(c.BinDir, "verif-agent"), N4Addr: n4For(i), Seed: c.Seed*1000 + 130 + int64(i), Reports: reports, DdnMs: ddn}
+		dp := "bess"
+		if i%3 == 2 {
+			dp = "up4"
+		}
+
+		return "e2e-ddn", DdnParams{Dir: dir, Trace: trace, AgentBin: filepath.Join(c.BinDir, "verif-agent"), N4Addr: n4For(i), Seed: c.Seed*1000 + 130 + int64(i), Reports: reports, DdnMs: ddn, Datapath: dp}
 	})
 	judgeE2E(c, res, map[string]bool{"InEnvelope": true})
 }
